@@ -142,3 +142,39 @@ Print Assumptions C11_kernel_locatorCacheMiss.
 Theorem C11_kernel_params : Link_C11.kernel_params_pinned.
 Proof. exact Link_C11.kernel_params_ok. Qed.
 Print Assumptions C11_kernel_params.
+
+(* ---- the transition layer (service/transition.go): the threshold of a group is the one
+   of the state the block is executed on, for the window AND for the id list ---- *)
+From Goloop Require Import Model_TxChain Proofs_TxChain.
+
+(* a block accepted by validation: every normal transaction lies in
+   (bts - th, bts + th] with th = TransactionTimestampThreshold of the parent's result
+   state, and the id list created for the block has exactly that (bts, th): the
+   hypothesis under which the locator theorems above speak about this Add *)
+Theorem C11_chain_normal_accept_partial : forall b par bts txs newms b' rp,
+  nth_error (b_trs b) par = Some rp ->
+  bstep b (BNormal par bts txs false newms) = (b', 0%N) ->
+  (forall p, In p txs -> in_window bts (th_of_state (r_ms rp)) (snd p)) /\
+  exists r tk, b_trs b' = b_trs b ++ [r] /\ r_par r = Some par /\
+    get (s_trk (b_loc b')) (r_n r) = Some tk /\
+    t_ts tk = bts /\ t_th tk = th_of_state (r_ms rp).
+Proof. exact chain_normal_accept. Qed.
+Print Assumptions C11_chain_normal_accept_partial.
+
+(* the same for the patch group: the patching block's time and the constant 1 minute *)
+Theorem C11_chain_patch_accept_partial : forall b tr bts ptxs b' rt,
+  nth_error (b_trs b) tr = Some rt -> ptxs <> [] ->
+  bstep b (BPatch tr bts ptxs) = (b', 0%N) ->
+  (forall p, In p ptxs -> in_window bts patch_th (snd p)) /\
+  exists r tk, b_trs b' = b_trs b ++ [r] /\
+    get (s_trk (b_loc b')) (r_p r) = Some tk /\ t_ts tk = bts /\ t_th tk = patch_th.
+Proof. exact chain_patch_accept. Qed.
+Print Assumptions C11_chain_patch_accept_partial.
+
+(* a block rejected as Expired / Future does carry a transaction outside that window *)
+Theorem C11_chain_normal_reject_window : forall b par bts txs newms b' rp v,
+  nth_error (b_trs b) par = Some rp ->
+  bstep b (BNormal par bts txs false newms) = (b', v) -> (v = 2%N \/ v = 3%N) ->
+  exists p, In p txs /\ ~ in_window bts (th_of_state (r_ms rp)) (snd p).
+Proof. exact chain_normal_reject_window. Qed.
+Print Assumptions C11_chain_normal_reject_window.
